@@ -122,7 +122,11 @@ def check(spec, ctx):
                 raise Violation("SPURIOUS-" + type(exc).__name__,
                                 "%s: raised %s (%s) but the graph defines the product %r"
                                 % (where, type(exc).__name__, exc, want))
-            name = "InvalidSequence" if isinstance(exc, errors.InvalidSequence) else type(exc).__name__
+            # the documented class, or a (possibly new) subclass of it
+            name = type(exc).__name__
+            for doc in ("InvalidSequence", "DuplicateModules", "MissingModule"):
+                if isinstance(exc, getattr(errors, doc)):
+                    name = doc
             if name not in want.errors:
                 raise Violation("WRONG-ERROR", "%s: raised %s, admissible: %s"
                                 % (where, type(exc).__name__, sorted(want.errors)))
